@@ -86,6 +86,10 @@ pub fn transcript(tier: Tier, seed: u64) -> Vec<String> {
             })
             .collect::<Vec<_>>(),
     );
+    for (i, (bp, x, a, u, what)) in targeted_client_bases(seed).into_iter().enumerate() {
+        let cs = catch(|| verif_hooks::client_s(bp, x, a, u, 7, N_LE)).map(|r| r.map(|s| hex(&s)).unwrap_or("refusedB".into())).unwrap_or("panic".into());
+        lines.push(format!("targeted-base|{i:04}|{what}\tclientS={cs}"));
+    }
     for low in 0..=32usize {
         let mut s = [0x5Bu8; 32];
         for b in s.iter_mut().take(low) {
